@@ -107,7 +107,7 @@ func (g *vf22Gen) chunk(ctx int, wellFormedOnly bool) (zoekt.ChunkMatch, bool) {
 			}
 		}
 	}
-	if !wellFormedOnly && r.Chance(6) {
+	if !wellFormedOnly && r.Chance(30) {
 		well = false
 		switch r.Intn(3) {
 		case 0: // decreasing end lines
@@ -462,7 +462,7 @@ func vf22OraclePrefix(ranked, got []zoekt.FileMatch, opts *zoekt.SearchOptions, 
 			switch {
 			case got == mk(wantN, hadNL):
 				// whole leading lines; the terminator of the last line is kept iff the original chunk had one
-			case hadNL && newLast < oldLast && got == mk(wantN+1, false):
+			case hadNL && newLast < oldLast && wantN+1 <= len(wl) && got == mk(wantN+1, false):
 				add("chunk:trim-trailing-newline-extra-line", fmt.Sprintf("content %q (last range ends on line %d, %d context lines) cut to %d ranges became %q instead of %q", wc.Content, oldLast, ctx, len(gc.Ranges), gc.Content, mk(wantN, true)))
 			case origTrail < ctx && got == mk(newLast-F+1+origTrail, hadNL):
 				add("chunk:context-short-when-chunk-was-clamped-at-eof", fmt.Sprintf("content %q has only %d of %d trailing context lines (end of file); cut to %d ranges it keeps %d context lines though %d are available: %q", wc.Content, origTrail, ctx, len(gc.Ranges), origTrail, wantN-(newLast-F+1), gc.Content))
